@@ -28,13 +28,105 @@ def _work(item):
     interp.REPO = repo
     importlib.import_module('contracts.%s' % prop.lower())
     scen = [s for s in oblig.SCENARIOS[prop] if s.name == sname][0]
+    # wall-clock budget per instance: a runaway instance (path / term explosion, typically on a changed tree) becomes UNDECIDED
+    # instead of blocking the check; solver queries have their own timeout, so the alarm is delivered between two queries
+    import signal
+    budget = int(os.environ.get('TTVC_INSTANCE_BUDGET_S', '900'))
+
+    class _Budget(BaseException):
+        pass
+
+    def _alarm(signum, frame):
+        raise _Budget()
+    try:
+        signal.signal(signal.SIGALRM, _alarm)
+        signal.alarm(budget)
+    except Exception:
+        pass
     try:
         r = oblig.run_instance(scen, params, repo=repo)
         r['hashes'] = dict(interp.SOURCE_HASHES)
         return r
+    except _Budget:
+        return {'scenario': sname, 'prop': prop, 'func': scen.func, 'params': params, 'paths': 0, 'wall_s': budget, 'queries': 0, 'solver_s': 0, 'notes': [],
+                'obligations': [{'name': 'instance_budget', 'kind': 'subset', 'status': 'undecided', 'paths': 0,
+                                 'detail': {'reason': 'instance exceeded its wall-clock budget of %d s (path / term explosion)' % budget}}],
+                'hashes': dict(interp.SOURCE_HASHES)}
     except Exception as e:
         return {'scenario': sname, 'prop': prop, 'func': scen.func, 'params': params, 'crash': traceback.format_exc(), 'obligations': [],
                 'paths': 0, 'wall_s': 0, 'queries': 0, 'solver_s': 0, 'notes': []}
+    finally:
+        try:
+            signal.alarm(0)
+        except Exception:
+            pass
+
+
+def _child(item, conn):
+    try:
+        conn.send(_work(item))
+    except BaseException:
+        try:
+            conn.send({'scenario': item[1], 'prop': item[0], 'func': '?', 'params': item[2], 'crash': traceback.format_exc(), 'obligations': [],
+                       'paths': 0, 'wall_s': 0, 'queries': 0, 'solver_s': 0, 'notes': []})
+        except Exception:
+            pass
+    finally:
+        conn.close()
+
+
+def run_items(items, jobs):
+    """one forked process per instance with a HARD wall-clock limit (the in-process alarm cannot interrupt a solver call that
+    ignores its timeout): an instance that is still running `grace` seconds after its budget is killed and reported UNDECIDED"""
+    import time as _t
+    ctx = mp.get_context('fork')
+    budget = int(os.environ.get('TTVC_INSTANCE_BUDGET_S', '900'))
+    hard = budget + 90
+    pending = list(items)
+    running = []          # (process, conn, item, t0)
+    while pending or running:
+        while pending and len(running) < max(1, jobs):
+            it = pending.pop(0)
+            a, b = ctx.Pipe(duplex=False)
+            pr = ctx.Process(target=_child, args=(it, b), daemon=True)
+            pr.start()
+            b.close()
+            running.append((pr, a, it, _t.time()))
+        still = []
+        progressed = False
+        for pr, conn, it, t0 in running:
+            got = None
+            try:
+                if conn.poll(0):
+                    got = conn.recv()
+            except (EOFError, OSError):
+                got = {'scenario': it[1], 'prop': it[0], 'func': '?', 'params': it[2], 'crash': 'worker died without a result (exit code %s)' % pr.exitcode,
+                       'obligations': [], 'paths': 0, 'wall_s': 0, 'queries': 0, 'solver_s': 0, 'notes': []}
+            if got is not None:
+                pr.join(5)
+                conn.close()
+                progressed = True
+                yield got
+            elif _t.time() - t0 > hard:
+                pr.terminate()
+                pr.join(5)
+                if pr.is_alive():
+                    pr.kill()
+                conn.close()
+                progressed = True
+                yield {'scenario': it[1], 'prop': it[0], 'func': '?', 'params': it[2], 'paths': 0, 'wall_s': hard, 'queries': 0, 'solver_s': 0, 'notes': [],
+                       'obligations': [{'name': 'instance_budget', 'kind': 'subset', 'status': 'undecided', 'paths': 0,
+                                        'detail': {'reason': 'instance killed after %d s (a solver call did not return within its timeout)' % hard}}]}
+            elif not pr.is_alive() and not conn.poll(0.2):
+                conn.close()
+                progressed = True
+                yield {'scenario': it[1], 'prop': it[0], 'func': '?', 'params': it[2], 'crash': 'worker died without a result (exit code %s)' % pr.exitcode,
+                       'obligations': [], 'paths': 0, 'wall_s': 0, 'queries': 0, 'solver_s': 0, 'notes': []}
+            else:
+                still.append((pr, conn, it, t0))
+        running = still
+        if not progressed:
+            _t.sleep(0.02)
 
 
 def pstr(params):
@@ -116,10 +208,8 @@ def main(argv=None):
     results = []
     if items:
         if args.jobs > 1 and len(items) > 1:
-            ctx = mp.get_context('fork')
-            with ctx.Pool(min(args.jobs, len(items))) as pool:
-                for r in pool.imap_unordered(_work, items, chunksize=1):
-                    results.append(r)
+            for r in run_items(items, min(args.jobs, len(items))):
+                results.append(r)
         else:
             for it in items:
                 results.append(_work(it))
@@ -346,10 +436,8 @@ def run_selftest(prop, scens, repo, jobs, mod, seed):
                     items.append((prop, s_.name, params, tmp))
             res = []
             if items:
-                ctx = mp.get_context('fork')
-                with ctx.Pool(min(jobs, len(items))) as pool:
-                    for r in pool.imap_unordered(_work, items, chunksize=1):
-                        res.append(r)
+                for r in run_items(items, min(jobs, len(items))):
+                    res.append(r)
             failed = [('%s[%s].%s' % (r['scenario'], pstr(r['params']), o['name'])) for r in res for o in r['obligations'] if o['status'] == 'failed']
             bfail = 0
             if hasattr(mod, 'bounded_checks'):
